@@ -1,0 +1,99 @@
+//go:build verif
+
+// Contracts for package iplddecoders (comment-only; read by /verif/vcgo, build tag verif).
+// Properties C12 (never crash on arbitrary bytes) and C11-D1 (kind exclusivity).
+package iplddecoders
+
+// D1: the seven kinds are pairwise distinct constants 0..6 (iota); a successful _DecodeXFast returns a node whose
+// Kind field is K_X, so no byte string is accepted as two different kinds.
+
+// constant obligation: the Kind constants are exactly the literals 0..6 that ipldbindcode's UnmarshalCBOR compare against
+// (hence pairwise distinct); attached to (Kind).String, whose switch enumerates them.
+//@ func (Kind) String
+//@   mode int
+//@   ensures int(KindTransaction) == 0 && int(KindEntry) == 1 && int(KindBlock) == 2 && int(KindSubset) == 3 && int(KindEpoch) == 4 && int(KindRewards) == 5 && int(KindDataFrame) == 6
+
+//@ func _DecodeEpochFast
+//@   mode int
+//@   ensures (result0 == nil) == (result1 != nil)
+//@   ensures result1 == nil ==> result0.Kind == 4 && fresh(result0)
+
+//@ func _DecodeSubsetFast
+//@   mode int
+//@   ensures (result0 == nil) == (result1 != nil)
+//@   ensures result1 == nil ==> result0.Kind == 3 && fresh(result0)
+
+//@ func _DecodeBlockFast
+//@   mode int
+//@   ensures (result0 == nil) == (result1 != nil)
+//@   ensures result1 == nil ==> result0.Kind == 2 && fresh(result0)
+
+//@ func _DecodeEntryFast
+//@   mode int
+//@   ensures (result0 == nil) == (result1 != nil)
+//@   ensures result1 == nil ==> result0.Kind == 1 && fresh(result0)
+
+//@ func _DecodeTransactionFast
+//@   mode int
+//@   ensures (result0 == nil) == (result1 != nil)
+//@   ensures result1 == nil ==> result0.Kind == 0 && fresh(result0)
+
+//@ func _DecodeRewardsFast
+//@   mode int
+//@   ensures (result0 == nil) == (result1 != nil)
+//@   ensures result1 == nil ==> result0.Kind == 5 && fresh(result0)
+
+//@ func _DecodeDataFrameFast
+//@   mode int
+//@   ensures (result0 == nil) == (result1 != nil)
+//@   ensures result1 == nil ==> result0.Kind == 6 && fresh(result0)
+
+//@ func GetKind
+//@   mode int
+//@   ensures (result1 == nil) == (len(anyRaw) >= 2)
+//@   ensures result1 == nil ==> int(result0) == int(anyRaw[1])
+//@   ensures result1 != nil ==> int(result0) == -1
+
+// wrappers (one call each)
+//@ func DecodeEpoch
+//@   mode int
+//@   ensures (result0 == nil) == (result1 != nil)
+//@   ensures result1 == nil ==> result0.Kind == 4
+//@ func DecodeSubset
+//@   mode int
+//@   ensures (result0 == nil) == (result1 != nil)
+//@   ensures result1 == nil ==> result0.Kind == 3
+//@ func DecodeBlock
+//@   mode int
+//@   ensures (result0 == nil) == (result1 != nil)
+//@   ensures result1 == nil ==> result0.Kind == 2
+//@ func DecodeEntry
+//@   mode int
+//@   ensures (result0 == nil) == (result1 != nil)
+//@   ensures result1 == nil ==> result0.Kind == 1
+//@ func DecodeTransaction
+//@   mode int
+//@   ensures (result0 == nil) == (result1 != nil)
+//@   ensures result1 == nil ==> result0.Kind == 0
+//@ func DecodeRewards
+//@   mode int
+//@   ensures (result0 == nil) == (result1 != nil)
+//@   ensures result1 == nil ==> result0.Kind == 5
+//@ func DecodeDataFrame
+//@   mode int
+//@   ensures (result0 == nil) == (result1 != nil)
+//@   ensures result1 == nil ==> result0.Kind == 6
+
+// DecodeAny dispatches on the SECOND BYTE of the input (GetKind), i.e. it assumes the outer CBOR array header is one
+// byte and the kind is a one-byte unsigned integer; the chosen decoder then re-checks the decoded kind, so on success
+// the dynamic type of the result is the node type whose kind is anyRaw[1].
+//@ func DecodeAny
+//@   mode int
+//@   ensures result1 == nil ==> len(anyRaw) >= 2 && anyRaw[1] <= 6
+//@   ensures result1 == nil && anyRaw[1] == 0 ==> typeis(result0, *ipldbindcode.Transaction) && result0.(*ipldbindcode.Transaction).Kind == 0
+//@   ensures result1 == nil && anyRaw[1] == 1 ==> typeis(result0, *ipldbindcode.Entry) && result0.(*ipldbindcode.Entry).Kind == 1
+//@   ensures result1 == nil && anyRaw[1] == 2 ==> typeis(result0, *ipldbindcode.Block) && result0.(*ipldbindcode.Block).Kind == 2
+//@   ensures result1 == nil && anyRaw[1] == 3 ==> typeis(result0, *ipldbindcode.Subset) && result0.(*ipldbindcode.Subset).Kind == 3
+//@   ensures result1 == nil && anyRaw[1] == 4 ==> typeis(result0, *ipldbindcode.Epoch) && result0.(*ipldbindcode.Epoch).Kind == 4
+//@   ensures result1 == nil && anyRaw[1] == 5 ==> typeis(result0, *ipldbindcode.Rewards) && result0.(*ipldbindcode.Rewards).Kind == 5
+//@   ensures result1 == nil && anyRaw[1] == 6 ==> typeis(result0, *ipldbindcode.DataFrame) && result0.(*ipldbindcode.DataFrame).Kind == 6
